@@ -10,6 +10,7 @@ import (
 	"github.com/jsightapi/jsight-schema-go-library/notations/jschema"
 	"github.com/jsightapi/jsight-schema-go-library/notations/regex"
 
+	"github.com/jsightapi/jsight-api-go-library/catalog"
 	"github.com/jsightapi/jsight-api-go-library/directive"
 	"github.com/jsightapi/jsight-api-go-library/jerr"
 	"github.com/jsightapi/jsight-api-go-library/notation"
@@ -154,7 +155,7 @@ func (core *JApiCore) checkUserTypeDuringBuild(name string, ut jschemaLib.Schema
 }
 
 func safeAddType(curr jschemaLib.Schema, n string, ut jschemaLib.Schema) error {
-	err := curr.AddType(n, ut)
+	err := curr.AddType(n, catalog.FreshUserType(n, ut))
 	var e interface{ Code() jerrors.ErrorCode }
 	if errors.As(err, &e) && e.Code() == jerrors.ErrDuplicationOfNameOfTypes {
 		err = nil
